@@ -206,7 +206,9 @@ def run_wide_range(rng, res, idx):
     scale = rng.choice([1.0, 30.0, 100.0])
     bias = rng.random() < 0.6
     dec = rng.choice([0.5, 0.9, 0.0])
-    case = dict(idx=idx, kind='wide', factor_dtype=str(fdt), fin=fi, fout=fo, lead=list(lead), input_scale=scale, bias=bias, decay=dec)
+    # mixed precision the usual way: the forward pass runs inside torch.autocast (float32 model, float32 factors requested)
+    autocast = fdt == torch.float32 and rng.random() < 0.5
+    case = dict(idx=idx, kind='wide', factor_dtype=str(fdt), fin=fi, fout=fo, lead=list(lead), input_scale=scale, bias=bias, decay=dec, autocast=autocast)
     g = torch.Generator().manual_seed(rng.randrange(2 ** 31))
     lin = torch.nn.Linear(fi, fo, bias=bias)
     with torch.no_grad():
@@ -218,7 +220,13 @@ def run_wide_range(rng, res, idx):
         p = KFACPreconditioner(model, factor_update_steps=1, inv_update_steps=1, damping=0.1, factor_decay=(dec if dec > 0 else 1e-9), factor_dtype=fdt, kl_clip=None, lr=0.1)
     x = torch.randn(*lead, fi, generator=g) * scale
     w = torch.randn(*lead, fo, generator=g)
-    (model(x) * w).sum().backward()
+    if autocast:
+        res.count('autocast_forward_passes')
+        with torch.autocast('cpu', dtype=torch.bfloat16):
+            out_ = model(x)
+        (out_.float() * w).sum().backward()
+    else:
+        (model(x) * w).sum().backward()
     sd = p.state_dict()['layers']
     name = next(iter(sd))
     xr = x.reshape(-1, fi).double()
@@ -232,6 +240,9 @@ def run_wide_range(rng, res, idx):
     if sd[name]['A'] is None:
         return res.violation('no factor after a complete forward/backward pass on a factor-update step (hook mode)', case)
     for tag, X, Xref in (('A', sd[name]['A'], Aref), ('G', sd[name]['G'], Gref)):
+        if autocast and X.dtype != fdt:
+            return res.violation(f'forward pass under torch.autocast(bfloat16): factor {tag} is stored as {X.dtype}, the requested factor dtype is {fdt} '
+                                 f'(the hook computes the second moment inside the autocast region)', case, mechanism='autocast-region-lowers-the-factor-dtype')
         if not torch.isfinite(X).all():
             return res.violation(f'wide-range batch ({xr.shape[0]} rows, input scale {scale}): factor {tag} stored as {X.dtype} is not finite although the mean second moment '
                                  f'is at most {float(Xref.abs().max()):.4g}', case)
